@@ -14,30 +14,6 @@
  * universally quantified ones) and the index at which memrec_find_var stopped (written by the
  * loop annotation / by memrec_find_var's contract) */
 size_t vg_r, vg_r2, vg_fidx;
-/* the table object built by the harness (typed array of records), for the memmove model */
-void *vg_mh_tab;
-
-/* Units that define VERIF_REAL_MSGS / VERIF_REAL_STDIO before vprelude.h get no bodies for
- * libast_dprintf / fprintf / fflush / time from env.h: goto-instrument 6.11 aborts (invariant
- * violation in goto_inline, parameter_assignments) when a function that has a loop contract AND is
- * not the enforced function calls a function WITH a body inside that loop (memrec_find_var's D_MEM
- * diagnostic inside its search loop, reached from memrec_rem_var / memrec_chg_var).  Without a
- * body cbmc treats these calls as returning an arbitrary value and writing nothing, which is what
- * env.h's bodies do as well.  The globals and the two functions whose effect matters are given here. */
-#ifdef VERIF_REAL_MSGS
-unsigned int libast_debug_level;
-unsigned long libast_debug_flags;
-spif_charptr_t libast_program_name = (spif_charptr_t) "verif";
-spif_charptr_t libast_program_version = (spif_charptr_t) "0";
-/* fatal error ends the process: the path ends here */
-void libast_fatal_error(const char *fmt, ...) { __CPROVER_assume(0); }
-#endif
-
-/* anchor for a walking pointer whose element type is not char (env.h's VERIF_ANCHOR adds the byte
- * offset in units of the base type): identity re-basing through a byte pointer */
-#define VERIF_MH_ANCHOR(p, base, T) do { \
-    __CPROVER_assert(__CPROVER_same_object((p), (base)), "anchor: " #p " stays inside object of " #base); \
-    (p) = (T) ((char *) (base) + __CPROVER_POINTER_OFFSET(p)); } while (0)
 
 /* re-basing of a walking pointer on an index: identity assignment whose identity is an obligation */
 #define VERIF_MH_REBASE(p, e) do { \
@@ -71,44 +47,6 @@ void *realloc(void *p, size_t n)
         ((VERIF_MEMHASH_REALLOC_ELEM_T *) r)[vg_r2] = ((VERIF_MEMHASH_REALLOC_ELEM_T *) p)[vg_r2];
     free(p);
     return r;
-}
-#endif
-
-#if defined(VERIF_MEMHASH_MEMMOVE_MODEL) && defined(VERIF_MEMHASH_REALLOC_ELEM_T)
-/* OVER-APPROXIMATION of memmove, same style as the realloc model: afterwards the WHOLE destination
- * object has arbitrary contents, except that the two elements with ghost indices vg_r and vg_r2 (of
- * the unit's element type, counted from the start of the destination object) hold exactly what the
- * real memmove leaves there: the moved value when the element lies inside [dst, dst+n), the old
- * value when it lies outside (element-aligned moves; otherwise arbitrary).  The real memmove changes
- * nothing outside [dst, dst+n), so its behaviour is one of the model's; vg_r, vg_r2 are arbitrary.
- * (cbmc's own memmove with a symbolic length on the 48-byte record array: z3 > 250 s, SAT out of
- * memory.)  Bounds of both ranges are checked. */
-void *memmove(void *dst, const void *src, size_t n)
-{
-    typedef VERIF_MEMHASH_REALLOC_ELEM_T vg_elem_t;
-    __CPROVER_assert(n == 0 || (__CPROVER_r_ok(src, n) && __CPROVER_w_ok(dst, n)), "memmove: source readable, destination writable for n bytes");
-    if (n == 0) return dst;
-    size_t doff = __CPROVER_POINTER_OFFSET(dst), soff = __CPROVER_POINTER_OFFSET(src), osz = __CPROVER_OBJECT_SIZE(dst);
-    /* element-aligned moves are modelled exactly at the ghost elements; anything else leaves them
-     * arbitrary.  All accesses are written as ELEMENT-indexed accesses relative to dst / src (no
-     * byte arithmetic), so that cbmc keeps them as array-element accesses. */
-    _Bool aligned = doff % sizeof(vg_elem_t) == 0 && soff % sizeof(vg_elem_t) == 0 && n % sizeof(vg_elem_t) == 0;
-    __CPROVER_ssize_t d0 = (__CPROVER_ssize_t) (doff / sizeof(vg_elem_t)), ne = (__CPROVER_ssize_t) (n / sizeof(vg_elem_t)),
-                      oe = (__CPROVER_ssize_t) (osz / sizeof(vg_elem_t));
-    /* base of the destination object: the harness names the table it built (vg_mh_tab) so that the
-     * accesses below are plain table[index] accesses */
-    __CPROVER_assert(__CPROVER_same_object(dst, vg_mh_tab) && __CPROVER_same_object(src, vg_mh_tab) &&
-                     __CPROVER_POINTER_OFFSET(vg_mh_tab) == 0, "memmove model: inside the table named by the harness");
-    vg_elem_t *tb = (vg_elem_t *) vg_mh_tab;
-    __CPROVER_ssize_t s0 = (__CPROVER_ssize_t) (soff / sizeof(vg_elem_t));
-    vg_elem_t v1, v2;                   /* arbitrary */
-    _Bool k1 = 0, k2 = 0;
-    if (aligned && vg_r < (size_t) oe) { v1 = ((__CPROVER_ssize_t) vg_r >= d0 && (__CPROVER_ssize_t) vg_r < d0 + ne) ? tb[vg_r - d0 + s0] : tb[vg_r]; k1 = 1; }
-    if (aligned && vg_r2 < (size_t) oe) { v2 = ((__CPROVER_ssize_t) vg_r2 >= d0 && (__CPROVER_ssize_t) vg_r2 < d0 + ne) ? tb[vg_r2 - d0 + s0] : tb[vg_r2]; k2 = 1; }
-    __CPROVER_havoc_object(vg_mh_tab);
-    if (k1) tb[vg_r] = v1;
-    if (k2) tb[vg_r2] = v2;
-    return dst;
 }
 #endif
 
